@@ -79,7 +79,7 @@ def annotate(rng, a, full=True):
     if rng.random() < 0.4: a.adesc = text(40)
     if rng.random() < 0.4: a.aacc = "PF%05d" % rng.randrange(100000)
     if rng.random() < 0.3: a.au = text(20)
-    if rng.random() < 0.4: a.wgt = [round(rng.random() * rng.choice([1, 10, 100]), 2) + 0.01 for _ in range(n)]
+    if rng.random() < 0.4: a.wgt = [float("%.2f" % (rng.random() * rng.choice([1, 10, 100]) + 0.01)) for _ in range(n)]
     if rng.random() < 0.4: a.acc = [("ACC%d" % i if rng.random() < 0.7 else None) for i in range(n)]
     if rng.random() < 0.4: a.desc = [(text(30) if rng.random() < 0.7 else None) for _ in range(n)]
     if a.acc and not any(a.acc): a.acc = None
@@ -109,7 +109,7 @@ def annotate(rng, a, full=True):
         if rng.random() < 0.3:
             a.cut = [None] * 6
             for pair in rng.sample([0, 2, 4], rng.randrange(1, 4)):
-                a.cut[pair] = round(rng.random() * 50, 1); a.cut[pair + 1] = round(rng.random() * 50, 1)
+                a.cut[pair] = float("%.1f" % (rng.random() * 50)); a.cut[pair + 1] = float("%.1f" % (rng.random() * 50))
     return a
 
 
